@@ -158,6 +158,9 @@ func hashTree(root string, dirs []string) string {
 	return hex.EncodeToString(h.Sum(nil))[:16]
 }
 
+// skipInstrumentation makes prepare build the harness over the pristine copy (self-test only).
+var skipInstrumentation bool
+
 // prepare builds the simulation binary from /repo's current working tree.
 func prepare(pc *propCfg) *buildInfo {
 	start := time.Now()
@@ -235,7 +238,19 @@ func prepare(pc *propCfg) *buildInfo {
 	if genOK {
 		pkgs += ",verifsim/gen"
 	}
-	out, err := run(root, env, filepath.Join(verifHome, "bin", "instr"), "-root", root, "-pkgs", pkgs)
+	var out string
+	if skipInstrumentation {
+		bi.instrSummary = map[string]int{}
+		out, err = build0(root, env, pc, false)
+		if err != nil {
+			trouble("uninstrumented build failed:\n%s", out)
+		}
+		bi.bin = filepath.Join(scratch, "simbin")
+		bi.degraded = true
+		bi.buildSeconds = time.Since(start).Seconds()
+		return bi
+	}
+	out, err = run(root, env, filepath.Join(verifHome, "bin", "instr"), "-root", root, "-pkgs", pkgs)
 	instrumented := err == nil
 	if err == nil {
 		line := strings.TrimSpace(out)
@@ -296,6 +311,15 @@ func prepare(pc *propCfg) *buildInfo {
 	bi.bin = filepath.Join(scratch, "simbin")
 	bi.buildSeconds = time.Since(start).Seconds()
 	return bi
+}
+
+func build0(root string, env []string, pc *propCfg, race bool) (string, error) {
+	args := []string{"build"}
+	if race {
+		args = append(args, "-race")
+	}
+	args = append(args, "-o", filepath.Join(scratch, "simbin"), "./verifsim")
+	return run(root, env, "go", args...)
 }
 
 // ---------------------------------------------------------------------------------------------
